@@ -70,6 +70,9 @@ type xzCfg struct {
 	CheckSum   byte
 	NoCheckSum bool
 	Matcher    int
+	// Zero: pass the zero configuration (every field defaulted by fill()); the other fields of this struct then
+	// hold the documented defaults (lc3 lp0 pb2, 8 MiB dictionary, 4096 look-ahead, CRC64, no block size)
+	Zero bool
 }
 
 func (c xzCfg) String() string {
@@ -77,6 +80,9 @@ func (c xzCfg) String() string {
 }
 
 func (c xzCfg) config() xz.WriterConfig {
+	if c.Zero {
+		return xz.WriterConfig{}
+	}
 	return xz.WriterConfig{Properties: &lzma.Properties{LC: c.LC, LP: c.LP, PB: c.PB}, DictCap: c.DictCap,
 		BufSize: c.BufSize, BlockSize: c.BlockSize, CheckSum: c.CheckSum, NoCheckSum: c.NoCheckSum,
 		Matcher: lzma.MatchAlgorithm(c.Matcher)}
